@@ -254,6 +254,58 @@ def write_replay(prop, kind, payload):
     return path
 
 
+def search_failing_input(prop, tier, seed, work, known, budget_s, gen_env):
+    """DESIGN.md §3: the tie broke (implementation and model disagree) but no request of this run failed the
+    specification. Searches further inputs for one that does: the thorough generator with this seed (when the tier
+    is quick), then the generators under other seeds, within a time budget. Returns (entry or None, log)."""
+    t_end = time.time() + budget_s
+    attempts = []
+    plan = ([("thorough", seed)] if tier == "quick" else []) + [(tier, seed + 1000 + i) for i in range(1, 50)]
+    for n, (t, sd) in enumerate(plan):
+        left = t_end - time.time()
+        if left < 20:
+            break
+        d = os.path.join(work, "search%d" % n)
+        os.makedirs(d, exist_ok=True)
+        try:
+            rc, out = sh([KVH, "gen", prop, t, str(sd), os.path.join(d, "gen")], timeout=left, env=gen_env)
+        except subprocess.TimeoutExpired:
+            attempts.append({"tier": t, "seed": sd, "result": "generator timed out"})
+            # whatever shards were written completely are still searched
+            rc = 0
+        files = sorted(glob.glob(os.path.join(d, "gen*.ops")))
+        results = run_driver_sharded(files, d)
+        n_req = 0
+        for f in files:
+            o = results[f][0]
+            slot_defs = {}
+            with open(f) as fi, open(o) as fo:
+                for line, ans in zip(fi.read().split("\n"), fo.read().split("\n")):
+                    if not line:
+                        continue
+                    request, impl = split_line(line)
+                    if request.startswith("DEF "):
+                        slot = request.split(" ", 2)[1]
+                        if request.split(" ")[2] == "NEW":
+                            slot_defs[slot] = []
+                        slot_defs.setdefault(slot, []).append(request + (" :: " + impl if impl else ""))
+                    elif request.split(" ", 1)[0] in SLOT_STATE_OPS:
+                        slot_defs.setdefault(request.split(" ", 2)[1], []).append(request)
+                    if impl == "" or " || " not in ans:
+                        continue
+                    n_req += 1
+                    model, verdict = ans.split(" || ", 1)
+                    if verdict.startswith("FAILS") and not matches_known(prop, request, known, verdict):
+                        entry = {"request": request, "impl": impl, "model": model, "spec": verdict}
+                        if request.split(" ", 1)[0] in SLOT_OPS:
+                            entry["context"] = slot_defs.get(request.split(" ")[1], [])
+                        attempts.append({"tier": t, "seed": sd, "requests": n_req, "result": "failing input found"})
+                        return entry, attempts
+        attempts.append({"tier": t, "seed": sd, "requests": n_req, "result": "no request fails the specification"})
+        shutil.rmtree(d, ignore_errors=True)
+    return None, attempts
+
+
 def main():
     if len(sys.argv) < 3:
         print(__doc__)
@@ -304,9 +356,9 @@ def main():
                 cases["driver_errors"].append("kvh run %s failed: %s" % (c, out[-500:]))
             else:
                 ops_files.append(o)
-        rc, out = sh([KVH, "gen", prop, tier, str(seed), os.path.join(work, "gen")], timeout=6 * 3600,
-                     env={"KVH_SHARDS": str(NCPU), "KVH_PLAIN": KVH_PLAIN, "KVH_PYDIR": PYDIR,
-                          "KVH_PYDRIVE": os.path.join(ROOT, "tools", "pydrive.py")})
+        gen_env = {"KVH_SHARDS": str(NCPU), "KVH_PLAIN": KVH_PLAIN, "KVH_PYDIR": PYDIR,
+                   "KVH_PYDRIVE": os.path.join(ROOT, "tools", "pydrive.py")}
+        rc, out = sh([KVH, "gen", prop, tier, str(seed), os.path.join(work, "gen")], timeout=6 * 3600, env=gen_env)
         if rc != 0:
             cases["driver_errors"].append("kvh gen failed rc=%d: %s" % (rc, out[-2000:]))
         report["gen_log"] = out[-3000:]
@@ -388,12 +440,26 @@ def main():
     for kid, entry in seen_known.items():
         k = [x for x in known if x["id"] == kid][0]
         print("KNOWN-FINDING: property=%s %s (e.g. %s)" % (prop, k["what"], entry["request"][:160]))
+    searched = None
+    if cases["impl_vs_model"] and not cases["impl_vs_spec"] and cargo_ok and report.get("driver_ok"):
+        # the tie broke without a failing input in this run: search for one (bounded; DESIGN.md §3)
+        budget = int(os.environ.get("VERIF_SEARCH_S", "600" if thorough else "240"))
+        found, searched = search_failing_input(prop, tier, seed, work, known, budget, gen_env)
+        report["search"] = searched
+        if found:
+            found["found_by_search"] = searched[-1]
+            cases["impl_vs_spec"].append(found)
     if cases["impl_vs_spec"]:
         e = cases["impl_vs_spec"][0]
-        path = write_replay(prop, "spec", {"property": prop, "kind": "implementation violates the specification",
-                                           "ops": e.get("context", []) + [e["request"]], "impl": e["impl"], "model": e["model"],
-                                           "spec_verdict": e["spec"], "seed": seed, "tier": tier,
-                                           "more": [x["request"] for x in cases["impl_vs_spec"][1:20]]})
+        payload = {"property": prop, "kind": "implementation violates the specification",
+                   "ops": e.get("context", []) + [e["request"]], "impl": e["impl"], "model": e["model"],
+                   "spec_verdict": e["spec"], "seed": seed, "tier": tier,
+                   "more": [x["request"] for x in cases["impl_vs_spec"][1:20]]}
+        if e.get("found_by_search"):
+            payload["found_by"] = {"search_after_broken_correspondence": searched,
+                                   "first_disagreements": [{k: v for k, v in x.items() if k != "context"}
+                                                           for x in cases["impl_vs_model"][:3]]}
+        path = write_replay(prop, "spec", payload)
         violations.append("VIOLATION property=%s replay=%s" % (prop, path))
     elif cases["impl_vs_model"] or cases["driver_errors"] or not extract_ok or not report["proof_ok"] \
             or not report["audit"].get("ok") or not cargo_ok:
@@ -418,6 +484,7 @@ def main():
                           [x["request"] for x in cases["impl_vs_model"][:20]
                            if x.get("context") == cases["impl_vs_model"][0].get("context")],
                    "disagreements": [{k: v for k, v in x.items() if k != "context"} for x in cases["impl_vs_model"][:5]],
+                   "search_for_failing_input": searched if searched is not None else "not run (nothing to run it on)",
                    "logs": {"lake": report.get("lake_build", {}).get("log"), "extract": report.get("extract", {}).get("log", "")[-1500:],
                             "cargo": report.get("cargo_build", {}).get("log", "")[-1500:]}}
         path = write_replay(prop, "tie", payload)
